@@ -627,8 +627,21 @@ def t3(ctx, numbers, rng):
     # arbitrary varints in an enum field: the reference truncates to int32
     raws = [0, 1, (1 << 32) - 1, 1 << 32, (1 << 32) + 1, (1 << 31), (1 << 31) - 1, (1 << 64) - 1, (1 << 63), (1 << 64) - (1 << 31),
             (1 << 64) - (1 << 31) - 1] + [rng.getrandbits(rng.choice([31, 32, 33, 40, 63, 64])) for _ in range(200 if not ctx.thorough else 3000)]
-    for raw in raws:
-        data = b"\x08" + bp.encode_varint(raw)
+    def padded(n, pad):
+        out = bytearray()
+        while n >= 0x80:
+            out.append((n & 0x7F) | 0x80)
+            n >>= 7
+        if pad:
+            out.append(n | 0x80)
+            out += b"\x80" * (pad - 1) + b"\x00"
+        else:
+            out.append(n)
+        return bytes(out)
+
+    for i, raw in enumerate(raws):
+        # minimal encoding, and every third case a padded (non-minimal) one
+        data = b"\x08" + (bp.encode_varint(raw) if i % 3 or raw >= (1 << 56) else padded(raw, 1 + i % 2))
         try:
             a = Ref.FromString(data).s
             b = M().parse(data).s
@@ -686,7 +699,7 @@ def run(ctx):
             ctx.count("corpus_inputs")
 
     # ------------------------------------------------------------------ class bodies and histories (T2 + API oracle)
-    nrandom = 160 if not ctx.thorough else 2500
+    nrandom = 160 if not ctx.thorough else 8000
     bodies = [(b, False) for b in systematic_bodies()] + [(b, True) for b in systematic_bodies() if all(not n.startswith("__") for n, _ in b)]
     for _ in range(nrandom):
         b = random_body(rng)
@@ -730,7 +743,7 @@ def run(ctx):
 
     # ------------------------------------------------------------------ scalar path of both codecs (T2)
     bnums = boundary_numbers()
-    nscalar = 12 if not ctx.thorough else 60
+    nscalar = 12 if not ctx.thorough else 250
     chosen = classes[:len(systematic_bodies())] + [classes[rng.randrange(len(classes))] for _ in range(nscalar)] if classes else []
     msgs = {}
     for body, cname, E in chosen:
